@@ -230,6 +230,11 @@ def run_scenario(seed, shape, entry, delay_steps, tick, policy, depth,
         except Exception as ex:
             res['stop_raised'] = repr(ex)
         res['s'] = s.steps
+        # had the controller already handed the successor to a thread when the
+        # stop call returned?  (then it was the current job for stop-all to
+        # stop, not something started afterwards)
+        res['successor_thread_at_return'] = (
+            agent2 is not None and agent2._thread is not None)
         res['position_at_return'] = '{}|{}'.format(
             rec1.state, rec1.loc.split(':')[0] if rec1.loc else '?')
         res['own_steps_at_stop'] = rec1.steps
@@ -545,8 +550,24 @@ def check(ctx, res, shape, entry, with_successor, replay):
         # anything *started* after stop-all (a successor that was already
         # running when stop-all arrived is the current job and is stopped; it
         # may still finish the instruction in progress)
-        started_after = SUCCESSOR_LOG[0] in (res.get('successor_after_stop')
-                                             or [])
+        # -- "started" is the moment the controller gives the job a thread,
+        # not the moment of its first command: a successor whose thread
+        # existed when stop-all returned had been taken out of the queue
+        # before the queue was cleared, was the current job when stop-all
+        # looked, and may deliver the one command it was in the middle of
+        # (the stricter reading, first command after the return, was a false
+        # alarm: once in 200 000 schedules of the thorough tier, seed 1)
+        first_after = SUCCESSOR_LOG[0] in (res.get('successor_after_stop')
+                                           or [])
+        started_after = first_after and not res.get(
+            'successor_thread_at_return')
+        # ... one command, that is: a successor that goes on after it was not
+        # stopped (it was started behind stop-all's back, between the stop of
+        # the current job and the clearing of the queue)
+        if len(res.get('successor_after_stop') or []) > 1:
+            started_after = True
+        if first_after and not started_after:
+            ctx.count('successors_caught_in_their_first_command')
         if started_after or res.get('has_jobs'):
             ctx.violation('e:stop-all-leaves-work',
                           '{}: after stop-all successor events {} has_jobs={}'
